@@ -18,7 +18,7 @@ theorem partition_nbrs (c : Ctx) (p : Nat) (hashed : Nat → Bool) (nbrs : List 
     · subst h1; simp; omega
     · by_cases h2 : x = c.start
       · subst h2; simp [h1]; omega
-        · cases h3 : hashed x <;> simp [h1, h2] <;> omega
+      · cases h3 : hashed x <;> simp [h1, h2, h3] <;> omega
 
 theorem loopStage_facts {c : Ctx} {atom bond : Nat} {loop : Bool} {fs : List Nat} {ins0 : Option Entry} {bond' : Nat}
     (h : loopStage c atom bond loop fs = some (ins0, bond')) (hb : bond = 1 ∨ bond = 2) :
